@@ -385,6 +385,11 @@ class MarkdownNormalizer(Renderer):
 
         result: list[str] = []
 
+        # If the enclosing first-line prefix (a parent item's marker, `> `) has not been written
+        # yet, this list is the first content on that line: no item break may come before it.
+        if self._prefix != self._second_prefix:
+            self._suppress_item_break = True
+
         for i, child in enumerate(element.children):
             # Configure the appropriate prefix based on list type
             if element.ordered:
